@@ -341,6 +341,20 @@ def run_case(case):
                     i += n
             if v:
                 return result(v, True, key, labels, evals)
+            # the list need not be grouped by type: interleave the images (deterministic shuffle) and rebuild
+            if len(imgs) > 1:
+                perm = np.random.default_rng(len(imgs) * 7919 + si).permutation(len(imgs))
+                mixed = [imgs[j] for j in perm]
+                rebuilt = geom.MultiImage.from_images(mixed)
+                expect = {}
+                for im in mixed:
+                    expect.setdefault((im.k, im.parity), []).append(np.asarray(im.data))
+                flat2 = ([(t, np.stack(v_)) for t, v_ in expect.items()], d, torus)
+                v = _same(rebuilt, flat2, "images-interleaved")
+                if v is None and len(rebuilt.to_images()) != len(mixed):
+                    v = viol("C13/images-interleaved/count", f"{len(rebuilt.to_images())} images come back from {len(mixed)}")
+                if v:
+                    return result(v, True, key, labels, evals)
         elif op in ("copy", "jit", "vmap", "flatten"):
             if op == "copy":
                 other = cur.copy()
